@@ -96,3 +96,13 @@ claim("C17",
       "child reversal; treeness as a cross-multiplied identity over symbolic lengths; Pybus-Harvey gamma on concrete small heights.",
       TB + " sqrt/log/pow based constants are concrete per shape.", "symbolic execution (CrossHair+z3) of node-age computation with symbolic lengths and precision; shape-exhaustive comparison of tree statistics with independent definitions",
       "DESIGN.md 3/C17")
+
+claim("C19",
+      "Bounded symbolic execution of the CharacterMatrix row/column operations. Continuous matrices carry fully symbolic cell values, so "
+      "'exactly the cells named, unaltered' is decided for every cell value; row presence, row lengths, index sets, taxon subsets, labels "
+      "(repeats, case variants, the same object twice), fill size and direction are symbolic. Harness-side model (label -> list of cells): "
+      "concatenation in argument order with one character subset per source covering its columns, exports of ragged matrices, fill/pack, the "
+      "nine row operations, arguments unchanged and unshared, other namespaces refused. Termination is checked by a per-path watchdog whose "
+      "candidates are replayed concretely.",
+      TB, "symbolic execution (CrossHair+z3) of matrix operations with symbolic cell values/row lengths/index sets against a list model; watchdog for non-termination",
+      "DESIGN.md 3/C19")
